@@ -19,7 +19,7 @@ def dispatch (line : String) : String :=
 partial def loop (h : IO.FS.Stream) (out : IO.FS.Stream) : IO Unit := do
   let line ← h.getLine
   if line.isEmpty then return ()
-  out.putStrLn (dispatch line)
+  out.putStrLn (Geo.oneLine (dispatch line))
   loop h out
 
 def main : IO Unit := do
